@@ -70,6 +70,7 @@ fn judge<T: LInt, const FMT: u128>(cx: &mut Cx, radix: u32, v: T) {
     if out.iter().any(|&b| b >= 0x80) {
         viol(cx, "C17", "non-ascii-output", radix, ty, vs.clone(), &out, String::new());
     }
+    guard::set_crumb(format!("to_string_with_options {ty} radix {radix} {vs}").as_bytes());
     match report::catch(|| lexical::to_string_with_options::<T, FMT>(v, &wopts)) {
         Ok(s) => {
             if s.as_bytes() != &out[..] {
